@@ -52,6 +52,7 @@ const (
 	tickRebroadcast = 40 * time.Millisecond   // RebroadcastDelay (periodic search) in histories with ticks
 	tickWindow      = 350 * time.Millisecond  // how long one tick event watches the want-list
 	unitWait        = 30 * time.Second        // deadline inside a unit / node case; when it passes the case is cut short
+	wantWait        = 2 * time.Second         // how long blocks published during the want callback are given to be delivered
 	lagWait         = 5 * time.Second         // how long a request next to a lagging reader is given to be served
 )
 
@@ -445,6 +446,33 @@ func runLagUnit(t *testing.T, n int, cancelLagging bool) (string, map[string]any
 	}
 	term := lagTerm(keys0, keys0, out0, cancelLagging, [][2][]int{{early, outEarly}, {late, lateCopy}})
 	return term, map[string]any{"kind": "lagging-reader-unit", "keys": n, "cancel_lagging": cancelLagging}
+}
+
+// runWantPublishes: the blocks arrive while the want is being registered: the want callback publishes
+// every wanted block on the PubSub before it returns (what receiveBlocksFrom does when a peer without
+// latency, or a copy already in flight for another session, answers at once). The subscription must exist
+// by then: every key is delivered, in that order, within wantWait.
+func runWantPublishes(t *testing.T, keys []int) (string, map[string]any) {
+	max := 0
+	for _, k := range keys {
+		if k > max {
+			max = k
+		}
+	}
+	u := newUniverse(max+1, "wp")
+	notif := bsclient.VerifNewPubSub()
+	defer func() { go notif.Shutdown() }()
+	ctx, cancel := context.WithCancel(context.Background())
+	defer cancel()
+	ch, _ := bsclient.VerifAsyncGetBlocks(ctx, context.Background(), u.cids(keys), notif,
+		func(_ context.Context, ws []cid.Cid) {
+			for _, c := range ws {
+				notif.Publish(peer.ID("src"), u.blks[u.id[c]])
+			}
+		}, func([]cid.Cid) {})
+	out, _ := readAll(u, ch, len(dedup(keys))+1, wantWait)
+	term := lagTerm(keys, keys, out, false, nil)
+	return term, map[string]any{"kind": "blocks-arrive-during-want", "keys": keys}
 }
 
 // runLagNode: the same at node level. The requester asks for n blocks that the provider holds and reads
@@ -1370,6 +1398,12 @@ func TestC37(t *testing.T) {
 			st.Case(term, true)
 			st.Count("lagging-reader.unit")
 		}
+	}
+	for _, keys := range [][]int{{0}, {0, 1, 2}, {1, 1, 2}, {3, 0, 3, 2, 0}, seq(0, 20)} {
+		term, rp := runWantPublishes(t, keys)
+		cs.Add(term, rp)
+		st.Case(term, true)
+		st.Count("blocks-arrive-during-want")
 	}
 	for _, n := range []int{40, 100} {
 		for _, cancelLagging := range []bool{false, true} {
